@@ -1497,7 +1497,7 @@ namespace avel {
         auto lo = _mm_srl_epi64(full, _mm_cvtsi64_si128(32 * (h - min(h, n))));
         auto hi = _mm_srl_epi64(full, _mm_cvtsi64_si128(32 * (w - min(w, n))));
         auto mask = _mm_unpacklo_epi64(lo, hi);
-        _mm_maskmoveu_si128(decay(x), mask, reinterpret_cast<char *>(ptr));
+        masked_store_bytes(decay(x), mask, reinterpret_cast<char *>(ptr));
 
         #endif
 
